@@ -123,7 +123,7 @@ impl Choose for Dfs {
 
 pub enum Run<T> {
     Done(T, RunStats),
-    Panic(PanicInfo),
+    Panic(PanicInfo, Vec<String>),
     /// logical step budget exhausted: the system never became quiescent (log tail attached)
     Livelock(Vec<String>),
     /// wall clock watchdog (inconclusive)
@@ -154,7 +154,7 @@ pub fn exec_with<T, F: Future<Output = T>>(fut: F, steps: u64, watchdog: Duratio
         Err(p) => match rt::take_abort() {
             Abort::StepBudget => Run::Livelock(crate::app::App::last_log_tail(40)),
             Abort::Watchdog => Run::Watchdog,
-            Abort::None => Run::Panic(p),
+            Abort::None => Run::Panic(p, crate::app::App::last_log_tail(40)),
         },
     }
 }
